@@ -394,6 +394,9 @@ def isSimpleArg (argType : Nat) : Bool :=
 
 /-- `case pArgTypeByteList:` -/
 def parseByteListArg (d : Bytes) : P (Option Nat × PRes) := do
+  let r0 ← reader
+  -- a nested package ran past the end of this one: no byte list (the unsigned length would wrap around)
+  if r0.offset > r0.pkgEnd then pure (none, .failed) else do
   let argObj ← newObject opIntByteList
   let r ← reader
   parseByteList d argObj (u32 (r.pkgEnd + 4294967296 - r.offset))
